@@ -51,18 +51,19 @@ Theorem C20_finished_thread_sequential :
 Proof. exact finished_thread_sequential. Qed.
 Print Assumptions C20_finished_thread_sequential.
 
-(* the table side: for ANY table on which the decidable row predicate evaluates to true, every
-   statement that may write a static-storage object belongs to a process-wide lifecycle entry
-   point (SDF_LoadLibrary / SDF_UnloadLibrary); all other objects have no writer at all *)
+(* the table side: for ANY table on which the decidable row predicate evaluates to true, every statement that may
+   write a static-storage object is an allow-listed (object, function) pair carrying its guard (today: sdf_method /
+   sdf_vendor written by SDF_LoadLibrary / SDF_UnloadLibrary); every other object has no writer at all *)
 Theorem C20_globals_table_sound : forall tbl : list global,
   forallb global_ok tbl = true ->
-  forall g, In g tbl -> forall w, In w (g_writers g) -> In (w_fn w) lifecycle_functions.
+  forall g, In g tbl -> forall w, In w (g_writers g) ->
+  exists a, In a allow_list /\ aw_global a = g_name g /\ aw_fn a = w_fn w.
 Proof. exact globals_table_sound. Qed.
 Print Assumptions C20_globals_table_sound.
 
 Theorem C20_globals_never_written : forall tbl : list global,
   forallb global_ok tbl = true ->
   forall g, In g tbl ->
-  (forall w, In w (g_writers g) -> ~ In (w_fn w) lifecycle_functions) -> g_writers g = [].
+  (forall a, In a allow_list -> aw_global a <> g_name g) -> g_writers g = [].
 Proof. exact globals_never_written. Qed.
 Print Assumptions C20_globals_never_written.
